@@ -1075,10 +1075,10 @@ impl G {
         }
     }
     /// a random sub-bundle of the asset universe: 1..=3 policies x 1..=3 assets
-    fn pick_assets(&mut self, pols: &[Policy]) -> Holdings {
+    fn pick_assets(&mut self, pols: &[Policy], rich: bool) -> Holdings {
         let mut h = Holdings::new();
         if pols.is_empty() { return h; }
-        for _ in 0..self.range(1, 3) {
+        for _ in 0..(if rich { self.range(2, 5) } else { self.range(1, 3) }) {
             let p = self.below(pols.len() as u64) as usize;
             for _ in 0..self.range(1, 3) {
                 let a = self.below(pols[p].names.len() as u64) as usize;
@@ -1149,24 +1149,24 @@ fn tx_scenario(k: u64, f: &mut Feat) -> Result<Transaction, JsError> {
     let mut cb = TransactionBuilderConfigBuilder::new()
         .fee_algo(&LinearFee::new(&bn(44), &bn(155381)))
         .pool_deposit(&bn(500 * ADA)).key_deposit(&bn(2 * ADA))
-        .max_value_size(if small_mvs { 300 } else { 5000 }).max_tx_size(16384)
+        .max_value_size(if small_mvs { if k % 2 == 0 { 300 } else { 200 } } else { 5000 }).max_tx_size(16384)
         .coins_per_utxo_byte(&bn(4310));
     if g.chance(1, 4) { cb = cb.prefer_pure_change(true); f.set("prefer_pure_change"); }
     if ref_scripts || g.chance(1, 4) {
         cb = cb.ref_script_coins_per_byte(&UnitInterval::new(&bn(15), &bn(1)))
             .ex_unit_prices(&ExUnitPrices::new(&UnitInterval::new(&bn(577), &bn(10000)), &UnitInterval::new(&bn(721), &bn(10000000))));
     }
-    if small_mvs { f.set("max_value_size_300"); }
+    if small_mvs { f.set("max_value_size_small"); }
     let mut tb = TransactionBuilder::new(&cb.build()?);
     let data_cost = DataCost::new_coins_per_byte(&bn(4310));
 
     // ---- the asset universe: policies are hashes of native scripts so that they can be minted / burnt ----
-    let npol = if !with_assets { 0 } else if small_mvs { g.range(2, 5) } else { g.range(1, 4) };
+    let npol = if !with_assets { 0 } else if small_mvs { g.range(3, 6) } else { g.range(1, 4) };
     let mut pols: Vec<Policy> = vec![];
     for _ in 0..npol {
         let script = g.policy_script();
         let mut names: Vec<AssetName> = vec![];
-        for _ in 0..g.range(1, 3) { let n = g.asset_name(); if !names.contains(&n) { names.push(n); } }
+        for _ in 0..(if small_mvs { g.range(2, 4) } else { g.range(1, 3) }) { let n = g.asset_name(); if !names.contains(&n) { names.push(n); } }
         pols.push(Policy { id: script.hash(), script, names });
     }
 
@@ -1176,7 +1176,7 @@ fn tx_scenario(k: u64, f: &mut Feat) -> Result<Transaction, JsError> {
     let mut utxos: Vec<(Address, TransactionInput, u64, Holdings)> = vec![];
     if !coinsel {
         for _ in 0..g.range(1, 6) {
-            let h = if with_assets && g.chance(2, 3) { g.pick_assets(&pols) } else { Holdings::new() };
+            let h = if with_assets && g.chance(2, 3) { g.pick_assets(&pols, small_mvs) } else { Holdings::new() };
             for (key, q) in &h { *avail.entry(*key).or_insert(0) += q; }
             let coin = g.range(2 * ADA, 50 * ADA);
             explicit.push((g.key_address(), g.tx_in(), coin, h));
@@ -1184,7 +1184,7 @@ fn tx_scenario(k: u64, f: &mut Feat) -> Result<Transaction, JsError> {
     } else {
         f.set("coin_selection");
         for _ in 0..g.range(5, 20) {
-            let h = if with_assets && g.chance(1, 2) { g.pick_assets(&pols) } else { Holdings::new() };
+            let h = if with_assets && g.chance(1, 2) { g.pick_assets(&pols, small_mvs) } else { Holdings::new() };
             for (key, q) in &h { *avail.entry(*key).or_insert(0) += q; }
             let coin = g.range(2 * ADA, 60 * ADA);
             utxos.push((g.key_address(), g.tx_in(), coin, h));
@@ -1194,9 +1194,10 @@ fn tx_scenario(k: u64, f: &mut Feat) -> Result<Transaction, JsError> {
 
     // ---- mint / burn ----
     let mut need: u64 = 0;                              // lovelace the inputs must provide besides the fee
-    if (with_assets && g.chance(1, 3)) || g.chance(1, 12) {
+    if (with_assets && g.chance(2, 5)) || g.chance(1, 12) {
         let mut mb = MintBuilder::new();
         let mut any = false;
+        let mut touched: Vec<(usize, usize)> = vec![];
         for _ in 0..g.range(1, 2) {
             let fresh = pols.is_empty() || g.chance(1, 4);
             if fresh {
@@ -1209,7 +1210,10 @@ fn tx_scenario(k: u64, f: &mut Feat) -> Result<Transaction, JsError> {
             for _ in 0..g.range(1, 2) {
                 let a = g.below(pols[p].names.len() as u64) as usize;
                 let held = *avail.get(&(p, a)).unwrap_or(&0);
-                if !coinsel && held > 0 && g.chance(1, 2) {
+                // one entry per asset: the builder adds quantities up and rejects a zero sum
+                if touched.contains(&(p, a)) { continue; }
+                touched.push((p, a));
+                if !coinsel && held > 0 && g.chance(2, 3) {
                     let q = if g.chance(1, 2) { held } else { g.range(1, held) };
                     mb.add_asset(&wit, &pols[p].names[a], &Int::new_negative(&bn(q)))?;
                     avail.insert((p, a), held - q);
@@ -1325,7 +1329,7 @@ fn tx_scenario(k: u64, f: &mut Feat) -> Result<Transaction, JsError> {
         for _ in 0..g.range(1, 2) {
             let coin = g.range(5 * ADA, 20 * ADA);
             total += coin;
-            let h = if with_assets && g.chance(1, 4) { g.pick_assets(&pols) } else { Holdings::new() };
+            let h = if with_assets && g.chance(1, 4) { g.pick_assets(&pols, small_mvs) } else { Holdings::new() };
             for (key, q) in &h { *ch.entry(*key).or_insert(0) += q; }
             let v = value_of(coin, &pols, &h);
             if g.chance(1, 2) { ib.add_key_input(&g.kh(), &g.tx_in(), &v); } else { ib.add_regular_input(&g.key_address(), &g.tx_in(), &v)?; }
@@ -1449,6 +1453,18 @@ fn tx_scenario(k: u64, f: &mut Feat) -> Result<Transaction, JsError> {
     let outs = tx.body().outputs();
     let mut n_change = 0; let mut n_change_ma = 0;
     for i in explicit_outs..outs.len() { n_change += 1; if outs.get(i).amount().multiasset().is_some() { n_change_ma += 1; } }
+    for i in 0..outs.len() {
+        if let Some(ma) = outs.get(i).amount().multiasset() {
+            if ma.len() == 0 { f.set("OBS_empty_multiasset_in_output"); }
+            let ps = ma.keys();
+            for j in 0..ps.len() {
+                let a = ma.get(&ps.get(j)).unwrap();
+                if a.len() == 0 { f.set("OBS_empty_policy_in_output"); }
+                let ns = a.keys();
+                for l in 0..ns.len() { if a.get(&ns.get(l)).unwrap().is_zero() { f.set("OBS_zero_quantity_in_output"); } }
+            }
+        }
+    }
     if n_change > 0 { f.set("change_output"); }
     if n_change > 1 { f.set("change_split_2plus"); }
     if n_change_ma > 0 { f.set("assets_in_change"); }
